@@ -897,16 +897,17 @@ def _analyze_directory_for_import(root, project, schema):
         raise TypeError("The schema variable must be None, callable, or a string.")
 
     # Determine the data space mapping from directories at root to project jobs.
+    # Like the zip and tar analyzers, validate every directory before anything is copied.
     jobs = set()
+    mappings = []
     for src, job in _crawl_directory_data_space(root, project, schema_function):
         if job in jobs:
             raise StatepointParsingError(
                 "The jobs identified with the given schema function are not unique!"
             )
-        else:
-            jobs.add(job)
-            copy_executor = _CopyFromDirectoryExecutor(src, job)
-            yield src, copy_executor
+        jobs.add(job)
+        mappings.append((src, _CopyFromDirectoryExecutor(src, job)))
+    yield from mappings
 
 
 class _CopyFromZipFileExecutor:
